@@ -384,6 +384,13 @@ def show_per_event(parser_factory, case):
     evs = kevents(case)
     plain = feed_all(parser_factory(), evs, False)
     obs = feed_all(parser_factory(), evs, True)
+    # the entry point the package itself uses: feed_generator must deliver exactly what feed returns, in order
+    try:
+        via_gen = [ts_list(r.ktraces) for r in parser_factory().feed_generator(iter(evs))]
+    except Exception as e:
+        return 'err feed_generator-raises-' + core.err_name(e)
+    if via_gen != [p[0] for p in plain if p is not None]:
+        return 'err feed_generator-differs-from-feed'
     parts = []
     for p, o in zip(plain, obs):
         if o is None:
@@ -523,6 +530,9 @@ def classify(spec, i, exp, got):
 def oracle_per_event(case, got):
     spec = Spec(case)
     exp = spec.expected_per_event()
+    if got.startswith('err feed_generator'):
+        return ('pairing:feed-generator-differs-from-feed', 'TracesParser.feed_generator over the history does not deliver, in order, '
+                'the traces TracesParser.feed returns record by record (%s)' % got[4:])
     if not got.startswith('ok'):
         return ('pairing:raises', 'feeding the history failed: ' + got)
     body = got[3:]
